@@ -54,22 +54,65 @@ def write_cfg(name, invariants=(), **consts):
     return name
 
 
+_EX = [None]
+
+
+def start_pool(ctx, n):
+    """TLC runs are independent JVMs: they are started in the background
+    (n at a time) and joined where their result is needed, so that they
+    overlap with each other and with the replay into the implementation."""
+    from concurrent.futures import ThreadPoolExecutor
+    _EX[0] = ThreadPoolExecutor(n)
+    ctx._pending = []
+
+
+def submit(ctx, module, label, cfg, tag, workers, expect):
+    def job():
+        try:
+            return tlc.run(SPEC, module, cfg, tag, workers=workers,
+                           timeout=1500)
+        finally:
+            os.remove(os.path.join(SPEC, cfg))
+            tlc.cleanup(tag)
+    fut = _EX[0].submit(job)
+    box = {}
+
+    def resolve():
+        if 'res' not in box:
+            box['res'] = fut.result()
+            ctx.require_tlc_ok(f'{module} {label}', box['res'],
+                               expect_violation=expect)
+        return box['res']
+    ctx._pending.append(resolve)
+    return resolve
+
+
+def join_all(ctx):
+    for r in getattr(ctx, '_pending', []):
+        r()
+
+
 def tlc_run(ctx, label, invariants=INVS, expect=None, workers=8, **consts):
+    """-> callable that waits for the run and registers its verdict."""
     tag = 'c03_' + ''.join(ch if ch.isalnum() else '_' for ch in label)
     cfg = write_cfg(f'_{tag}.cfg', invariants, **consts)
-    try:
-        res = tlc.run(SPEC, 'Handshake', cfg, tag, workers=workers,
-                      timeout=1500)
-    finally:
-        os.remove(os.path.join(SPEC, cfg))
-        tlc.cleanup(tag)
-    ctx.require_tlc_ok(f'Handshake {label}', res, expect_violation=expect)
-    return res
+    return submit(ctx, 'Handshake', label, cfg, tag, workers, expect)
 
 
 def emit_cases(ctx, label, **consts):
-    res = tlc_run(ctx, label + ' (case table)', invariants=INVS + ['Emitted'],
+    """-> callable returning the case table (memoised)."""
+    run = tlc_run(ctx, label + ' (case table)', invariants=INVS + ['Emitted'],
                   workers=1, Emit='TRUE', **consts)
+    box = {}
+
+    def table():
+        if 'cases' not in box:
+            box['cases'] = _parse_cases(ctx, label, run())
+        return box['cases']
+    return table
+
+
+def _parse_cases(ctx, label, res):
     cases = []
     from harness.drivers.handshake import printed_cases
     for v in printed_cases(res.output):
@@ -125,26 +168,26 @@ def hk_run(ctx, label, invariants=HK_INVS, expect=None, workers=8, **consts):
     lines += [f'INVARIANT {i}' for i in invariants]
     with open(os.path.join(SPEC, name), 'w') as f:
         f.write('\n'.join(lines) + '\n')
-    try:
-        res = tlc.run(SPEC, 'HostKeyAlg', name, tag, workers=workers,
-                      timeout=1500)
-    finally:
-        os.remove(os.path.join(SPEC, name))
-        tlc.cleanup(tag)
-    ctx.require_tlc_ok(f'HostKeyAlg {label}', res, expect_violation=expect)
-    return res
+    return submit(ctx, 'HostKeyAlg', label, name, tag, workers, expect)
 
 
 def hk_histories(ctx, label, **consts):
-    res = hk_run(ctx, label + ' (history table)',
+    run = hk_run(ctx, label + ' (history table)',
                  invariants=HK_INVS + ['Emitted'], workers=1, Emit='TRUE',
                  **consts)
-    from harness.drivers.handshake import printed_cases
-    out = []
-    for v in printed_cases(res.output, 'hist'):
-        out.append(dict(keys=sorted(v[1]['$set']), lists=v[2], pred=v[3]))
-    ctx.require(out, f'no histories printed by TLC for {label}')
-    return out
+    box = {}
+
+    def table():
+        if 'out' not in box:
+            from harness.drivers.handshake import printed_cases
+            out = []
+            for v in printed_cases(run().output, 'hist'):
+                out.append(dict(keys=sorted(v[1]['$set']), lists=v[2],
+                                pred=v[3]))
+            ctx.require(out, f'no histories printed by TLC for {label}')
+            box['out'] = out
+        return box['out']
+    return table
 
 
 def hk_discriminating(h):
@@ -153,19 +196,27 @@ def hk_discriminating(h):
     return any(len(set(p.values())) > 1 for p in h['pred'])
 
 
-def hostkey_section(ctx, H, quick, rnd, state):
+def hostkey_tlc(ctx, quick):
     """Host key / signature algorithm as a negotiated dimension of its own:
-    multi-algorithm keys, several keys, histories on one listener."""
-    W = 4 if quick else 8
+    multi-algorithm keys, several keys, histories on one listener.
+    Starts the TLC runs; -> history tables (callables)."""
+    W = 2 if quick else 6
     allsets = ('{{"rsa"}, {"rsa", "ed"}, {"rsacert", "ed"}, '
                '{"rsa", "rsacert", "edcert", "ec"}}')
     allalgs = '{"rsa1", "rsa256", "rsa512", "ed", "c1", "c256", "c512"}'
     certsets = '{{"rsacert"}, {"rsacert", "rsa", "edcert"}}'
     certalgs = '{"c1", "c256", "c512", "rsa256", "ced"}'
     # design: any interleaving of the connections of one listener
-    hk_run(ctx, 'design, 2 interleaved connections, plain and certificate '
-           'keys', ServerKeySets=allsets, ClientAlgs=allalgs,
-           Interleave='TRUE', workers=W)
+    if quick:
+        hk_run(ctx, 'design, 2 interleaved connections, plain and '
+               'certificate keys',
+               ServerKeySets='{{"rsa", "ed"}, {"rsacert", "rsa"}}',
+               ClientAlgs='{"rsa1", "rsa512", "ed", "c1", "c256"}',
+               Interleave='TRUE', workers=W)
+    else:
+        hk_run(ctx, 'design, 2 interleaved connections, plain and '
+               'certificate keys', ServerKeySets=allsets, ClientAlgs=allalgs,
+               Interleave='TRUE', workers=W)
     if not quick:
         hk_run(ctx, 'design, 3 interleaved connections', NConn=3,
                Interleave='TRUE', workers=W)
@@ -196,6 +247,11 @@ def hostkey_section(ctx, H, quick, rnd, state):
             ServerKeySets='{{"rsa", "rsacert", "edcert", "ec"}, '
                           '{"rsa", "ed"}}',
             ClientAlgs='{"rsa1", "rsa512", "c1", "c256", "ed"}', MaxLen=3))
+    return tabs
+
+
+def hostkey_replay(ctx, H, quick, rnd, state, tabs):
+    tabs = [t() for t in tabs]
     R = H.HK_REAL
     tally = state['hk'] = {'connections': 0, 'histories': 0,
                            'interleaved': 0, 'failed_as_predicted': 0}
@@ -313,13 +369,15 @@ def main(ctx):
     H.cache_rsa_transient(True)
     quick = ctx.tier == 'quick'
     rnd = random.Random(ctx.seed + 3)
-    W = 4 if quick else 8
+    W = 2 if quick else 6
+    start_pool(ctx, 4 if quick else 2)
 
     if not ctx.replay_path:
         # ---- 1. design check -------------------------------------------------
         elm = '"few"' if quick else '"all"'
-        tlc_run(ctx, 'dh 1 edit, enc lists vary', KexType='"dh"',
-                VaryCats='{"enc"}', EditListMode=elm, workers=W)
+        if not quick:
+            tlc_run(ctx, 'dh 1 edit, enc lists vary', KexType='"dh"',
+                    VaryCats='{"enc"}', EditListMode=elm, workers=W)
         if not quick:
             tlc_run(ctx, 'gex 1 edit, kex lists vary', KexType='"gex"',
                     VaryCats='{"kex"}', EditListMode=elm, workers=W)
@@ -350,11 +408,12 @@ def main(ctx):
                     KexType='"gex"', HashOmit='{"VS"}', EditListMode='"few"',
                     expect='EditDetected', invariants=['EditDetected'],
                     workers=W)
-        tlc_run(ctx, 'sensitivity: both KEXINITs unhashed allow a downgrade',
-                KexType='"dh"', HashOmit='{"IC", "IS"}', MaxEdits=2,
-                VaryCats='{"enc"}', EditListMode='"single"',
-                EditMsgs='{"IC", "IS"}', EditFields='{"enc_cs", "enc_sc"}',
-                expect='NoDowngrade', invariants=['NoDowngrade'], workers=W)
+        if not quick:
+            tlc_run(ctx, 'sensitivity: both KEXINITs unhashed allow a downgrade',
+                    KexType='"dh"', HashOmit='{"IC", "IS"}', MaxEdits=2,
+                    VaryCats='{"enc"}', EditListMode='"single"',
+                    EditMsgs='{"IC", "IS"}', EditFields='{"enc_cs", "enc_sc"}',
+                    expect='NoDowngrade', invariants=['NoDowngrade'], workers=W)
         tlc_run(ctx, 'sensitivity: received mpints read as unsigned',
                 KexType='"gex"', SignBlind='TRUE',
                 EditMsgs='{"GGRP", "INIT", "REPLY"}', expect='EditDetected',
@@ -388,7 +447,16 @@ def main(ctx):
                          KexType='"dh"', MaxEdits=2, EditListMode='"few"',
                          EditFields='{"v","pad","cookie","kex","enc_cs","enc_sc",'
                                     '"mac_sc","ff","strict","e","f","ks","sig"}')
-        tables['dh', 2] = [c for c in two if len(c['edits']) == 2]
+        one_f = emit_cases(ctx, 'pairs kex | hostkey | cmp (one category at '
+                           'a time)', MaxEdits=0,
+                           VaryCats='{"kex", "hostkey", "cmp"}',
+                           VaryMode='"oneof"')
+        encmac_f = emit_cases(ctx, 'pairs enc x mac', MaxEdits=0,
+                              VaryCats='{"enc", "mac"}')
+        hk_tabs = hostkey_tlc(ctx, quick)
+        # all TLC runs are under way; take the tables needed first
+        tables = {k: f() for k, f in tables.items()}
+        tables['dh', 2] = [c for c in two() if len(c['edits']) == 2]
 
     state = {'n': 0, 'traces': 0, 'tally': {}}
 
@@ -677,9 +745,7 @@ def main(ctx):
                     run_command=False)
 
     # ---- 3. every pair of preference lists --------------------------------
-    one = emit_cases(ctx, 'pairs kex | hostkey | cmp (one category at a time)',
-                     MaxEdits=0, VaryCats='{"kex", "hostkey", "cmp"}',
-                     VaryMode='"oneof"')
+    one = one_f()
 
     def varies(case, cat):
         return case['c'][cat] != ['strong'] or case['s'][cat] != ['strong']
@@ -688,8 +754,7 @@ def main(ctx):
                  any(varies(c, k) for k in ('hostkey', 'cmp'))]),
         ('hostkey', [c for c in one if varies(c, 'hostkey')]),
         ('cmp', [c for c in one if varies(c, 'cmp')]),
-        ('enc+mac', emit_cases(ctx, 'pairs enc x mac', MaxEdits=0,
-                               VaryCats='{"enc", "mac"}')),
+        ('enc+mac', list(encmac_f())),
     ]
     kex_triples = [('curve25519-sha256', 'diffie-hellman-group14-sha256',
                     'ecdh-sha2-nistp256'),
@@ -840,8 +905,9 @@ def main(ctx):
         'as well)')
 
     # ---- 5. host key / signature algorithm, histories on one listener ----
-    hostkey_section(ctx, H, quick, rnd, state)
+    hostkey_replay(ctx, H, quick, rnd, state, hk_tabs)
 
+    join_all(ctx)
     ctx.traces_validated(state['traces'])
     ctx.notes.append(f'handshakes run against the implementation: '
                      f'{state["n"]}; by (receiver-visible effect of the '
